@@ -139,6 +139,7 @@ func disjunctionCaseForType(typesFormatter *typeFormatter, input string, typeDef
 			ast.KindInt32:   "is_int",
 			ast.KindInt64:   "is_int",
 			ast.KindBool:    "is_bool",
+			ast.KindNull:    "is_null",
 		}
 
 		testFunc := testMap[typeDef.Scalar.ScalarKind]
